@@ -51,6 +51,51 @@ PROPS = {
         exhaustive_models=True, assumptions=COMMON_ASSUME),
 }
 
+VTEXT_INVS = ['InvFold', 'InvDeadAbsorbing', 'InvRoundTrip', 'InvFailureOffset']
+def mc_vtext(sym, quick, thorough, name):
+    return dict(name=name, module='MC_VText',
+                constants=dict(SymbolSet=sym, MaxLive=quick[0], MaxExtra=quick[1], Emit=True),
+                thorough=dict(MaxLive=thorough[0], MaxExtra=thorough[1]),
+                invariants=VTEXT_INVS)
+VTEXT_MODELS = [mc_vtext('a', (6, 1), (7, 2), 'MC_VText_a'), mc_vtext('b', (5, 1), (6, 1), 'MC_VText_b')]
+VTEXT_RULE = ('cases = every string of up to MaxLive symbols while the parser machine is alive plus MaxExtra symbols after its first failure, '
+              'over two symbol sets (digits . - + v V a A x blank tab newline _ and two multi-byte characters) (exhaustive), + every single-byte '
+              'insert / delete / replace edit of 13 canonical versions over a 22-symbol alphabet, numbers at and around MAX_SAFE_INTEGER and 2^64 in every '
+              'position, lengths 254-300 ending in 1-4 byte characters, random strings up to 400 bytes (seeded); non-trivial = the string was passed to '
+              'Version::parse and judged; distinct = distinct string')
+def mc_version(mode, invs, name, thorough_size='large'):
+    return dict(name=name, module='MC_Version', constants=dict(Mode=mode, Size='small', Emit=True),
+                thorough=dict(Size=thorough_size), invariants=invs)
+
+PROPS.update({
+    'C04': dict(
+        models=[mc_version('order', ['InvReflexive', 'InvAntisymmetric', 'InvEqIffKey', 'InvSucc'], 'MC_Order'),
+                mc_version('triples', ['InvTransitive'], 'MC_Triples', thorough_size='small')],
+        gens=[dict(scenario='vorder', n=dict(quick=6000, thorough=100000))],
+        events=['vcmp', 'vsort'],
+        rule='cases = every ordered pair of the version universe of MC_Version (3 or 6 tuples x all prerelease lists of length <= 2 over {0,2,10,a,B,a-,a0}) (exhaustive) + seeded pairs and lists (<= 12) with components up to MAX_SAFE_INTEGER, numeric identifiers up to 2^64-1, identifier lists up to 6, confusable identifiers, build metadata; distinct = distinct case text',
+        exhaustive_models=True, assumptions=COMMON_ASSUME),
+    'C05': dict(models=VTEXT_MODELS, gens=[dict(scenario='vtext', n=dict(quick=12000, thorough=120000))],
+                events=['vparse'], rule=VTEXT_RULE, exhaustive_models=True, assumptions=COMMON_ASSUME, chunks=14),
+    'C12': dict(models=VTEXT_MODELS, gens=[dict(scenario='vtext', n=dict(quick=12000, thorough=120000))],
+                events=['vparse'], rule=VTEXT_RULE + '; for C12 only accepted strings matter (each is printed, re-parsed, printed again, serialised and deserialised)',
+                exhaustive_models=True, assumptions=COMMON_ASSUME, chunks=14),
+    'C17': dict(models=VTEXT_MODELS, gens=[dict(scenario='vtext', n=dict(quick=12000, thorough=120000))],
+                events=['vparse'], rule=VTEXT_RULE + '; for C17 only rejected strings matter (every accessor and diagnostic of the error is recorded)',
+                exhaustive_models=True, assumptions=COMMON_ASSUME, chunks=14),
+    'C16': dict(
+        models=[mc_version('diff', ['InvDiffSymmetric', 'InvDiffNoneIffEqual', 'InvDiffBuildBlind'], 'MC_Diff', thorough_size='small')],
+        gens=[dict(scenario='vdiffs', n=dict(quick=5000, thorough=100000))],
+        events=['vdiff'],
+        rule='cases = all 6561 ordered pairs of {0,1,2}^3 x {release, -0, -a} (exhaustive) + seeded pairs with large components, long tags and build metadata; distinct = distinct case text',
+        exhaustive_models=True, assumptions=COMMON_ASSUME),
+    'C18': dict(
+        models=[], gens=[dict(scenario='vtuples', n=dict(quick=12000, thorough=120000))],
+        events=['vtuple'],
+        rule='cases = for u8 and i8 every non-negative value in every position of triples and quadruples (others 0 or drawn from a boundary grid), the full product of a 5-value boundary grid for all ten integer types, and seeded random values pushed through every type that can hold them; judged by TLC against FromTuple3/FromTuple4 and PrintVersion; distinct = distinct (type, values)',
+        exhaustive_models=False, assumptions=COMMON_ASSUME + ['no bounded TLC model enumerates tuple conversions (the conversion has no cross-field logic); TLC is the judge of every recorded conversion']),
+})
+
 _LEVEL = ('TLC checks the design of the operation (spec/Interval.tla) against the declarative statement, pointwise on a complete '
           'probe set, for every operand pair of the bounded universe; each enumerated pair and thousands of seeded large/irregular '
           'pairs are then executed against the real crate and every recorded call is judged by TLC against the Api postcondition. '
@@ -64,5 +109,18 @@ MANIFEST_TEXT = {
     'C10': dict(level=_LEVEL, note=_NOTE, design_ref='DESIGN.md section 4 (C10)', technique='TLA+ model checking (TLC) of containment + trace validation of recorded allows_all calls against spec/Api.tla'),
     'C11': dict(level=_LEVEL, note=_NOTE, design_ref='DESIGN.md section 4 (C11)', technique='TLA+ model checking (TLC) of MinVersion + trace validation of recorded min_version calls against spec/Api.tla'),
 }
+_LEVEL_V = ('TLC checks the design-level laws on a bounded universe (every pair / triple / string in scope) and prints each element as a case; '
+            'every case plus seeded large and irregular ones is executed against the real crate and each recorded call is judged by TLC against the '
+            'Api postcondition (spec/Version.tla, spec/VersionText.tla). Exhaustive in the small scope, sampled outside it; no proof about the Rust code.')
+_NOTE_V = 'Trusted: TLC, the harness (JSON encoding of versions as digit/byte sequences, catch_unwind wrappers).'
+MANIFEST_TEXT.update({
+    'C04': dict(level=_LEVEL_V, note=_NOTE_V, design_ref='DESIGN.md section 4 (C04)', technique='TLA+ model checking (TLC) of the precedence order + trace validation of recorded cmp/eq/hash/sort calls against spec/Api.tla'),
+    'C05': dict(level=_LEVEL_V, note=_NOTE_V, design_ref='DESIGN.md section 4 (C05)', technique='TLA+ byte-level parser state machine explored exhaustively by TLC + trace validation of recorded Version::parse calls'),
+    'C12': dict(level=_LEVEL_V, note=_NOTE_V, design_ref='DESIGN.md section 4 (C12)', technique='TLA+ model checking (TLC) of print/parse round trip on the parser machine + trace validation of recorded print/re-parse/serde calls'),
+    'C16': dict(level=_LEVEL_V, note=_NOTE_V + ' The oracle Diff is a transcription of node-semver 7.x functions/diff.js.', design_ref='DESIGN.md section 4 (C16)', technique='TLA+ model checking (TLC) of Diff + trace validation of recorded Version::diff calls'),
+    'C17': dict(level=_LEVEL_V, note=_NOTE_V, design_ref='DESIGN.md section 4 (C17)', technique='TLA+ byte-level parser state machine (first failure kind and offset) + trace validation of recorded parse errors and their accessors'),
+    'C18': dict(level='Every recorded tuple conversion (per-position exhaustive for the 8-bit types, boundary grid products and seeded values for all ten integer types) is judged by TLC against FromTuple3/FromTuple4/PrintVersion of spec/Version.tla. No bounded TLC model enumerates the inputs (the conversion has no cross-field logic); the specification is the judge, not the generator.',
+                note=_NOTE_V, design_ref='DESIGN.md section 4 (C18)', technique='trace validation (TLC) of recorded From<tuple> conversions against the TLA+ definition'),
+})
 NOT_APPLICABLE = [dict(property_id=p, reason='check under construction in this session (specification module not yet bound to the code); not claimed yet')
-                  for p in ['C01', 'C02', 'C03', 'C04', 'C05', 'C06', 'C12', 'C13', 'C14', 'C15', 'C16', 'C17', 'C18']]
+                  for p in ['C01', 'C02', 'C03', 'C06', 'C13', 'C14', 'C15']]
